@@ -284,6 +284,16 @@ func main() {
 			break
 		}
 	}
+	for _, a := range os.Args {
+		if a == "--replay" {
+			cmd := exec.Command(filepath.Join(scratch, "vchild"), append([]string{filepath.Join(tgen.VerifDir(), "harness/c15")}, os.Args[1:]...)...)
+			cmd.Stdout, cmd.Stderr = os.Stdout, os.Stderr
+			if err := cmd.Run(); err != nil {
+				os.Exit(1)
+			}
+			os.Exit(0)
+		}
+	}
 	if workerG < 0 {
 		runChild(run, scratch)
 	}
